@@ -400,6 +400,13 @@ class Inliner:
                 self.changed += 1
                 out.extend(rep)
                 continue
+            hz = self.hoist_nested(s, cls, caller)
+            if hz is not None:
+                self.changed += 1
+                rep = self.try_inline(hz[0], cls, caller)
+                out.extend(rep if rep is not None else [hz[0]])
+                out.append(hz[1])
+                continue
             self.inline_exprs(s, cls, caller)
             for fld in ("body", "orelse", "finalbody"):
                 if hasattr(s, fld) and isinstance(getattr(s, fld), list) and not isinstance(s, (ast.FunctionDef, ast.ClassDef)):
@@ -449,6 +456,38 @@ class Inliner:
             s.value = t.visit(s.value)
         elif isinstance(s, ast.Assert):
             s.test = t.visit(s.test)
+
+    def hoist_nested(self, s, cls, caller):
+        """`f(a, _helper(x), b)` as a statement / assigned / returned, with every other argument simple: the helper call is
+        evaluated into a fresh temporary first (nothing else with an effect is evaluated in between)."""
+        outer = None
+        if isinstance(s, (ast.Expr, ast.Assign, ast.Return)) and isinstance(getattr(s, "value", None), ast.Call):
+            outer = s.value
+        if outer is None:
+            return None
+
+        def simple(a):
+            return isinstance(a, (ast.Name, ast.Constant)) or (isinstance(a, ast.Attribute) and simple(a.value))
+        args = list(outer.args) + [k.value for k in outer.keywords]
+        cands = [a for a in args if isinstance(a, ast.Call) and self.resolve(a, cls) is not None]
+        if len(cands) != 1 or not all(simple(a) for a in args if a is not cands[0]) or not simple(outer.func):
+            return None
+        inner = cands[0]
+        fn, is_method, self_expr = self.resolve(inner, cls)
+        if not self.eligible(fn, caller) or _simple_body(fn) is None:
+            return None
+        tmp = "hoisted__%s%d" % (fn.name.strip("_"), next(_counter))
+        pre = ast.copy_location(ast.Assign(targets=[ast.Name(id=tmp, ctx=ast.Store())], value=inner), s)
+
+        class R(ast.NodeTransformer):
+            def visit_Call(self, c):
+                if c is inner:
+                    return ast.copy_location(ast.Name(id=tmp, ctx=ast.Load()), c)
+                self.generic_visit(c)
+                return c
+        s2 = R().visit(s)
+        ast.fix_missing_locations(pre)
+        return [pre, s2]
 
     def try_inline(self, s, cls, caller):
         call = None
